@@ -7,7 +7,7 @@ CONSTANTS
   Counts <- CountsFull
   SubSecs <- SubFull
   OperandSubSecs <- SubQuick
-  OperandOffsets <- OffsQuick
+  OperandOffsets <- OffsPair
   TimeValues <- OneTimeValue
   DayLo <- NegOne
   DayHi = 1
